@@ -148,7 +148,6 @@ def first_diff(a, b):
 
 
 def compare(model_lines, impl_lines, keep_dump=True):
-    dead = dead_ranks(impl_lines)
-    m = drop_dead(normalise(model_lines, keep_dump), dead)
-    i = drop_dead(normalise(impl_lines, keep_dump), dead)
+    m = normalise(model_lines, keep_dump)
+    i = normalise(impl_lines, keep_dump)
     return first_diff(m, i)
